@@ -80,6 +80,7 @@ class World:
         cancel_budget: int = 0,
         batch: int = 1,
         max_actions: int = 400,
+        fine: bool = False,
     ) -> None:
         vtime.reset()
         self.ch = chooser
@@ -88,6 +89,9 @@ class World:
         self.cancel_budget = cancel_budget
         self.batch = batch
         self.max_actions = max_actions
+        # fine-grained cancellation: while budget remains a cancellation may also be injected
+        # between two iterations of the loop (not only at quiescent points)
+        self.fine = fine
         self.pauses: list[_Pause] = []
         self.victims: list[tuple[str, asyncio.Task]] = []
         self.cancel_filter: Callable[[str, asyncio.Task], bool] | None = None
@@ -131,7 +135,31 @@ class World:
     # -- controller -------------------------------------------------------------------------
     def _run_ready(self) -> None:
         try:
-            self.loop.run_ready()
+            if not (self.fine and self.cancel_budget > 0):
+                self.loop.run_ready()
+                return
+            n = 0
+            while self.loop._ready:
+                self.loop.run_iteration()
+                n += 1
+                if n > 2000:
+                    raise Livelock("more than 2000 loop iterations without quiescence")
+                if not self.loop._ready or self.cancel_budget <= 0:
+                    continue
+                cands = [
+                    (name, t)
+                    for name, t in self.victims
+                    if not t.done() and (self.cancel_filter is None or self.cancel_filter(name, t))
+                ]
+                if not cands:
+                    continue
+                c = self.ch.choose(len(cands) + 1, "mid-run")  # 0 = let the loop go on
+                if c:
+                    name, t = cands[c - 1]
+                    self.trace.append(f"cancel-between-iterations:{name}")
+                    self._canceller(name, t)()
+            if self.cancel_budget <= 0:
+                self.loop.run_ready()
         except Livelock:
             self.livelocked = True
             raise
